@@ -88,8 +88,32 @@ def runStreamSize (t : String) (len : Nat) : String :=
   if (decide (len ≤ max)) != delivered then s!"model: declared max {max} disagrees with the adapter limit for len {len}"
   else s!"status={st} delivered={delivered} after=ok"
 
+/-- `stream duplex <T> <big>`: three small messages travel against a big one on the same connection; the
+two directions are independent in the model (separate sockets' worth of answers), and a reader that finds
+the connection's state locked by a sender waits — the lock only delays its loop.  What the reader's loop
+delivers from the three messages waiting in its socket: -/
+def runStreamDuplex (t : String) : String :=
+  let small : List Bytes := [[0, 0], [0, 1], [0, 2]]
+  let backOk : Bool :=
+    if t = "W" then
+      let sent : List WsMsg := small.flatMap fun b => ((wsSend b true).2).map some
+      let r := wsReceive { sock := sent, buf := [] } [.fill sent.length, .wouldBlock] (sent.length + 3)
+      r.outs == small && r.status == some .waitNextEvent
+    else if t = "F" then
+      let wire := (small.map fun m => (framedSend m [.accept bigN, .accept bigN]).wire).flatten
+      let f := session tcpInputBufferSize (fun st ch => decode st ch) { st := [] }
+        [{ arrived := wire, sched := drainSched wire.length tcpInputBufferSize }]
+      f.outs == small && !f.panicked
+    else
+      let wire := small.flatten
+      let f := session tcpInputBufferSize (fun (_ : Unit) ch => some ((), [ch])) { st := () }
+        [{ arrived := wire, sched := drainSched wire.length tcpInputBufferSize }]
+      f.outs.flatten == wire
+  s!"back={if backOk then "complete" else "incomplete"} forward=complete"
+
 def runStream (ws : List String) : String :=
   match ws with
+  | ["duplex", t, _, _] => runStreamDuplex t
   | ["size", t, _, len] => match len.toNat? with
     | some n => runStreamSize t n
     | none => "bad-case"
